@@ -617,6 +617,7 @@ static std::vector<std::string> csv(const std::string& s) {  // "k=a,b,c" -> [a,
 //   on <X> hdr|body|set|cmp|inv|reval|rm|rmpl|payout <a>
 //   on <X> obs full|pop          digest of the observation;  dump full|pop  the observation itself (';'-joined)
 //   on <X> save | reload | fin | tip
+//   twin <X> <Y>                 fresh instance Y shown only X's active chain;  show <Y> <a>  ancestry of a
 struct Session {
   Cfg cfg;
   std::unique_ptr<Params> params;
@@ -674,6 +675,40 @@ struct Session {
       inst[t[1]].reset(new Instance(*params, *reg));
       inst[t[1]]->bootstrap();
       return "ok";
+    }
+    if (op == "twin") {
+      // twin <X> <Y>: fresh instance Y that is only ever shown the active chain of X
+      auto it = inst.find(t[1]);
+      if (it == inst.end()) return "SKIP noinst";
+      inst[t[2]].reset(new Instance(*params, *reg));
+      Instance& Y = *inst[t[2]];
+      Y.bootstrap();
+      std::string r = "ok";
+      for (auto* i : it->second->tree.getBestChain()) {
+        if (i == nullptr || i->isRoot()) continue;
+        auto id = reg->nameOf(i->getHash());
+        if (Y.idx(id) != nullptr) continue;  // below X's (finalized) root never happens for a fresh Y
+        auto h = Y.hdr(id);
+        auto b = Y.body(id);
+        if (h != "ok" || b != "connected") r = "fail " + id + " " + h + " " + b;
+      }
+      auto s2 = Y.setState(it->second->tip());
+      if (s2 != "true") r = "fail set " + s2;
+      return r;
+    }
+    if (op == "show") {
+      // show <Y> <a>: header+body of every block of a's ancestry that Y does not have yet
+      auto it = inst.find(t[1]);
+      if (it == inst.end() || !reg->alt.count(t[2])) return "SKIP";
+      std::string r = "ok";
+      for (auto& id : reg->ancestry(t[2])) {
+        if (id == "a0") continue;
+        auto* i = it->second->idx(id);
+        if (i == nullptr) it->second->hdr(id);
+        i = it->second->idx(id);
+        if (i != nullptr && !i->hasFlags(BLOCK_HAS_PAYLOADS)) it->second->body(id);
+      }
+      return r;
     }
     if (op == "on") {
       auto it = inst.find(t[1]);
